@@ -48,6 +48,10 @@ pub fn run(args: &Args) -> (Meta, Stats) {
         let nops = v["nops"].as_u64().unwrap_or(100) as usize;
         st.case(Some(1));
         st.distinct.insert(2);
+        if v["kind"] == "huge" {
+            super::huge::run_child(&mut st);
+            return (super::meta(args, "replay of the 2 GiB-scale length scenarios", &[]), st);
+        }
         if let Err((n, ops, what)) = run_one(fam, seed, nops, &mut st) {
             st.violation(&format!("{n}:mismatch"), &format!("{what} after {ops}"), v.clone());
         }
@@ -58,7 +62,7 @@ pub fn run(args: &Args) -> (Meta, Stats) {
     let sanit = args.tier == Tier::Sanitizer;
     let nt = if sanit { 1 } else { nthreads() };
     let san_n = args.san_n(39);
-    let st = par_run(nt, |shard, _n, st| {
+    let mut st = par_run(nt, |shard, _n, st| {
         let mut k = 0u64;
         loop {
             if sanit {
@@ -96,13 +100,17 @@ pub fn run(args: &Args) -> (Meta, Stats) {
             }
         }
     });
+    if !sanit && !cfg!(miri) {
+        // length arithmetic at the 2^31 / 2^32 limits, in a child process (see huge.rs)
+        super::huge::run_child(&mut st);
+    }
     let mut m = super::meta(
         args,
-        "random operation histories (20-400 operations) over a pool of up to 10 tendrils per format (Bytes, UTF8, ASCII, Latin1, WTF8; NonAtomic and Atomic): construction incl. invalid byte strings, with_capacity, try_push_bytes (valid and invalid), push_tendril incl. the adjacent-shared merge and WTF-8 surrogate joining, try_pop_front/back and panicking forms, try_subtendril with in/out-of-bounds and mid-character cuts, clone, clear, reserve, drop, into_send round trip, into_bytes/try_reinterpret, copy-on-write pushes; character operations (try_push_char, pop_front_char, pop_front_char_run); slice operations (DerefMut, Extend/FromIterator, io::Write, read_to_tendril, format, superset/subset views, String conversions). After EVERY operation every live tendril is compared with its own Vec<u8> model, and every Ok/Err outcome with the model's prediction (validity predicates written independently of tendril::fmt). Lengths biased to 0/1/7/8/9/15/16/17/31/32/33. Each history is a distinct case (hash = its seed).",
+        "random operation histories (20-400 operations) over a pool of up to 10 tendrils per format (Bytes, UTF8, ASCII, Latin1, WTF8; NonAtomic and Atomic): construction incl. invalid byte strings, with_capacity, try_push_bytes (valid and invalid), push_tendril incl. the adjacent-shared merge and WTF-8 surrogate joining, try_pop_front/back and panicking forms, try_subtendril with in/out-of-bounds and mid-character cuts, clone, clear, reserve, drop, into_send round trip, into_bytes/try_reinterpret, copy-on-write pushes; character operations (try_push_char, pop_front_char, pop_front_char_run); slice operations (DerefMut, Extend/FromIterator, io::Write, read_to_tendril, extend_with_byte - also on heap-backed tendrils of at most 8 bytes reached through reserve, clear, with_capacity and SendTendril round trips -, format, superset/subset views, String conversions). After EVERY operation every live tendril is compared with its own Vec<u8> model, and every Ok/Err outcome with the model's prediction (validity predicates written independently of tendril::fmt). Lengths biased to 0/1/7/8/9/15/16/17/31/32/33. Each history is a distinct case (hash = its seed). In addition a child process runs six scenarios on 2 GiB tendrils (growth to exactly 2^31, sub-slices and pops at the top of the range, out-of-bounds requests with offsets/lengths up to u32::MAX, push_tendril to 2^32 and to just below it, reserve/push overflow): each must give exact content, or the documented overflow panic with the operands unchanged; a crash of that process is a violation.",
         &["validity oracles: str::from_utf8 for UTF-8, a hand-written generalized-UTF-8 decoder plus the no-lead+trail rule for WTF-8, < 0x80 for ASCII"],
     );
     if !sanit {
-        m.require = vec![("operations".into(), 1_000_000), ("UTF8:repr_transitions".into(), 20), ("WTF8:adjacent_merge".into(), 50), ("UTF8:subtendril_error:ValidationFailed".into(), 100), ("UTF8:subtendril_error:OutOfBounds".into(), 100)];
+        m.require = vec![("operations".into(), 1_000_000), ("UTF8:repr_transitions".into(), 20), ("WTF8:adjacent_merge".into(), 50), ("UTF8:subtendril_error:ValidationFailed".into(), 100), ("UTF8:subtendril_error:OutOfBounds".into(), 100), ("Bytes:heap-backed-with-at-most-8-bytes".into(), 500), ("Bytes:op:extend_with_byte".into(), 1000)];
     }
     (m, st)
 }
